@@ -22,7 +22,7 @@ RULE = ('catalogue: every object kind x every public method x argument domain (N
         'transition = one real call with all parties snapshotted before/after.  non-trivial = an in-place call that '
         'really changed its target, or a copy/query whose receiver carries a non-zero phase, a coefficient, a non-zero '
         'rank or a stored map (the inputs the unit tests never use)')
-ASSUMPTIONS = ['bounded to N<=2 (N=3 only for masked gather/scatter in the thorough tier)',
+ASSUMPTIONS = ['bounded to N<=2 (N=3 only for masked gather/scatter with non-contiguous masks)',
                'aliasing is observed through numpy.shares_memory / tensor storage pointers and through real mutation histories',
                'result objects of queries that alias their receiver (views: slicing, as_list, stabilizers, -P, 1*P) are not flagged']
 
@@ -693,6 +693,8 @@ def fn_list(items):
         e1 = E[i1]
         _list_cases(cx, K, N, [e1], tier, True)
         for j, e2 in enumerate(E):
+            if N == 2 and not tier and e2[1] != (j + i1) % 4:
+                continue          # quick: every second string with one (rotating) phase; thorough: all 4 phases
             _list_cases(cx, K, N, [e1, e2], tier, heavy=(N == 1 or j % 16 == i1 % 16))
         if N == 1:
             for e2 in E:
@@ -1175,7 +1177,7 @@ def program_catalogue(N, tier):
     if N == 1 or tier:
         out += [[i, j, k] for i in A for j in A for k in A]
     else:
-        out += [[i, j, k] for i in A for j in A for k in A if (i + 2 * j + 3 * k) % 7 == 0]
+        out += [[i, j, k] for i in A for j in A for k in A if (i + 2 * j + 3 * k) % 21 == 0]
     return out
 
 
@@ -1576,7 +1578,7 @@ def fn_torch(items):
             c.take(gt)
             return c
         check_copy(cx, 'torch/CliffordCircuit[fixed-N]', mkCN, [], ntq=True, pairs=0)
-        if idx == reps[0]:
+        if True:
             # compiled circuit: the only compile() that succeeds in the port is the empty circuit's
             def mkCC():
                 return tci.identity_circuit(N).compile()
@@ -1585,6 +1587,49 @@ def fn_torch(items):
                 check_copy(cx, 'torch/CliffordCircuit(compiled)', mkCC, [], ntq=True, pairs=0)
             except Exception as e:
                 cx.count('torch_compile_raises_%s' % type(e).__name__)
+        cxs.append(cx)
+    return _finish(cxs)
+
+
+# =============================================================== leg: N=3 masked gather / scatter
+def _objs3():
+    pc = lib.pc
+    N = 3
+    out = [('PauliList', lambda: full_list(N)), ('PauliPolynomial', lambda: full_list(N, 'PauliPolynomial')),
+           ('Pauli', lambda: lib.P(ref.str_to_g('XYZ'), 3)), ('PauliMonomial', lambda: lib.MONO(ref.str_to_g('ZIY'), 2, 0.4)),
+           ('StabilizerState', lambda: pc.ghz_state(3)), ('StabilizerState', lambda: pc.stabilizer_state('-XXI', 'ZZI', '-IIY')),
+           ('StabilizerState', lambda: pc.stabilizer_state('-XZX', 'ZIZ')), ('StabilizerState', lambda: pc.maximally_mixed_state(3))]
+    return out
+
+
+def fn_mask3(items):
+    """item = [n, qi, si, tier]: gate spec si on the qi-th ordered n-subset of 3 qubits (non-contiguous masks
+    included), applied to N=3 objects, plus the corresponding direct masked rotate_by / transform_by."""
+    cxs = []
+    for it in items:
+        n, qi, si, tier = it
+        cx = Cx(it)
+        N = 3
+        qubits = list(itertools.permutations(range(N), n))[qi]
+        spec = gate_specs(n, tier)[si]
+        mk = lambda: make_gate(spec, qubits)
+        K = 'CliffordGate[%s]@N3' % spec[0]
+        for okind, mo in _objs3():
+            for d in ('forward', 'backward'):
+                gt = mk()
+                o = mo()
+                call(cx, '%s.%s(%s)' % (K, d, okind), {'gate': gt, 'obj': o}, _run(lambda: getattr(gt, d)(o)), target='obj')
+            m = lib.pu.mask(list(qubits), N)
+            if spec[0] == 'gen':
+                o = mo()
+                Gn = lib.P(spec[1][0], spec[1][1])
+                call(cx, '%s.rotate_by(mask)@N3' % okind, {'self': o, 'generator': Gn, 'mask': m}, lambda: o.rotate_by(Gn, mask=m), target='self')
+            elif spec[0] == 'fwd':
+                o = mo()
+                M = lib.CM(*dom.valid_maps(n)[spec[1]])
+                call(cx, '%s.transform_by(mask)@N3' % okind, {'self': o, 'map': M, 'mask': m}, lambda: o.transform_by(M, mask=m), target='self')
+        if spec[0] != 'random':
+            check_copy(cx, K, mk, gate_mutators(), denote=lambda o: act_key(o, N), ntq=True, pairs=1)
         cxs.append(cx)
     return _finish(cxs)
 
@@ -1620,7 +1665,32 @@ def conventions():
     return out
 
 
-def legs(tier):
+_WARM = [('pauli', 'fn_pauli', [['Pauli', 1, 2, 0], ['PauliMonomial', 2, 7, 0]]),
+         ('lists', 'fn_list', [['PauliList', 1, 7, 0], ['PauliPolynomial', 2, 17, 0], ['PauliPolynomial', 1, 3, 0], ['PauliList', 2, 33, 0]]),
+         ('maps', 'fn_map', [[1, 7, 0], [2, 777, 0]]),
+         ('states', 'fn_state', [[1, 7, 1, 0], [1, 30, 1, 0], [2, 7777, 1, 0], [2, 7779, 0, 0], [2, 20001, 0, 0], [2, 20002, 1, 0]]),
+         ('gates', 'fn_gate', [[1, 1, 0, 3, 0], [1, 2, 1, 13, 0], [2, 2, 1, 33, 0], [2, 2, 0, 2, 0], [1, 2, 0, 56, 0]]),
+         ('layers', 'fn_layer', [[2, 7, 0, 0], [2, 8, 1, 0], [1, 1, 0, 0]]),
+         ('circuits', 'fn_circuit', [[2, 100, 0, 0], [2, 101, 1, 0], [1, 5, 1, 0]]),
+         ('circuits_with_measurement', 'fn_mcircuit', [[2, 4, 0, 5], [2, 5, 1, 6], [1, 2, 0, 3]]),
+         ('masks_N3', 'fn_mask3', [[1, 1, 3, 0], [2, 4, 33, 0], [2, 1, 2, 0], [1, 2, 30, 0]]),
+         ('functions', 'fn_func', [['diagonalize', 2, 7], ['rotation', 2, 11], ['stabilizer_state', 2, 2], ['stabilizer_state', 2, 1], ['sbrg', 2, 1],
+                                   ['shadow', 2, 5], ['shadow', 1, 2], ['diagonalize', 1, 2], ['ctors', 3, 0]])]
+
+
+def warm_up(only=None):
+    """JIT warm-up in the parent: one representative item per (leg, kind, N), so that the forked workers inherit
+    every kernel specialisation instead of compiling it 16 times."""
+    for prefix, fname, items in _WARM:
+        if only and not any(o.startswith(prefix) for o in only):
+            continue
+        r = globals()[fname](items)
+        if r['viol']:
+            # not a verdict: the sweep itself will report it with a replay file
+            pass
+
+
+def legs(tier, for_replay=False):
     t = 0 if tier == 'quick' else 1
     seed = 0
     import os
@@ -1628,16 +1698,20 @@ def legs(tier):
     for N in (1, 2):
         stab.tableaux(N)
         stab.representatives(N, 0)
+    if not for_replay:
+        only = os.environ.get('PCVERIF_LEGS')
+        warm_up(only.split(',') if only else None)
     out = []
     items = [[K, N, i, t] for K in ('Pauli', 'PauliMonomial') for N in (1, 2) for i in range(4 ** N)]
-    out.append(Leg('pauli', fn_pauli, items, chunk=1, src_states=2 * (16 + 64) + 80,
+    out.append(Leg('pauli', fn_pauli, items[::-1], chunk=1, src_states=2 * (16 + 64) + 80,
                    bound='Pauli and PauliMonomial: all strings N<=2 x 4 phases (x 2 coefficients) x every method; binary ops with every other '
                          'operator as Pauli/Monomial/Polynomial; rotate_by all signed generators (+masks), transform_by %s' % (
                              'all N=1 maps, every 1151st N=2 map' if not t else 'all N=1 maps, every 97th N=2 map')))
     items = [[K, N, i, t] for K in ('PauliList', 'PauliPolynomial') for N in (1, 2) for i in range(4 * 4 ** N)]
-    out.append(Leg('lists', fn_list, items, chunk=1, src_states=2 * (16 + 256 + 4096 + 64 + 4096),
-                   bound='PauliList and PauliPolynomial: every list of length 1 and 2 over all signed operators (N<=2), length 3 for N=1; '
-                         'full method menu on length-1 lists and on 1/16 of the length-2 lists (all at N=1), core menu on the rest'))
+    out.append(Leg('lists', fn_list, items[::-1], chunk=1, src_states=2 * (16 + 256 + 4096 + 64 + 4096),
+                   bound='PauliList and PauliPolynomial: every list of length 1 and 2 over all signed operators (N=1: also length 3; N=2 %s); '
+                         'full method menu on length-1 lists and on 1/16 of the length-2 lists (all at N=1), core menu on the rest' % (
+                             'second element: all 64 signed operators' if t else 'second element: all 16 strings with a rotating phase')))
     items = [[1, k, t] for k in range(24)] + [[2, k, t] for k in range(0, 11520, 1 if t else 5)]
     out.append(Leg('maps', fn_map, items, chunk=24, src_states=len(items), exhaustive=bool(t), supplementary=not t,
                    bound='CliffordMap: all 24 N=1 maps, %s N=2 valid maps, as receiver and as argument' % ('all 11520' if t else 'every 5th of the 11520')))
@@ -1652,9 +1726,9 @@ def legs(tier):
                        bound='StabilizerState: all 34560 N=2 tableaux x core menu (copy, expect, entropy, sample, get_prob, density_matrix, '
                              'to_map, measure, rotate_by, transform_by, postselect, stabilizer_state)'))
     else:
-        items = [[2, i, 0, t] for i in range(seed % 6, 34560, 6)]
+        items = [[2, i, 0, t] for i in range(seed % 10, 34560, 10)]
         out.append(Leg('states_tableaux_stride', fn_state, items, chunk=24, src_states=len(items), exhaustive=False, supplementary=True,
-                       bound='StabilizerState: every 6th of the 34560 N=2 tableaux (offset VERIF_SEED) x core menu; the thorough tier sweeps all'))
+                       bound='StabilizerState: every 10th of the 34560 N=2 tableaux (offset VERIF_SEED) x core menu; the thorough tier sweeps all'))
     # gates
     items = []
     for n, N in ((1, 1), (1, 2), (2, 2)):
@@ -1672,7 +1746,7 @@ def legs(tier):
     items = [[N, pi, c, t] for N in (1, 2) for pi in range(len(program_catalogue(N, t))) for c in (0, 1)]
     out.append(Leg('circuits', fn_circuit, items, chunk=4, src_states=len(items),
                    bound='CliffordCircuit: programs of 1..3 gates over the alphabet (%s), plain and compiled' % (
-                       'all' if t else 'all of length <= 2, 1/7 of length 3 at N=2')))
+                       'all' if t else 'all of length <= 2, 1/21 of length 3 at N=2')))
     items = [[N, pi, c, si] for N in (1, 2) for pi in range(len(measure_programs(N))) for c in (0, 1)
              for si in (range(7) if N == 1 else range(0, 91, 1 if t else 5))]
     out.append(Leg('circuits_with_measurement', fn_mcircuit, items, chunk=8, src_states=len(items),
@@ -1685,6 +1759,15 @@ def legs(tier):
     out.append(Leg('functions', fn_func, items, chunk=1, src_states=len(items),
                    bound='diagonalize(Pauli/Monomial, i0, causal), clifford_rotation_map/gate, stabilizer_state (all commuting lists N<=2, all signs, '
                          '3 input formats), constructors, SBRG, ClassicalShadow.snapshots: arguments unchanged'))
+    items = []
+    for n in (1, 2):
+        specs = gate_specs(n, t)
+        for qi in range(len(list(itertools.permutations(range(3), n)))):
+            for si in range(0, len(specs), 1 if t else (7 if n == 1 else 5)):
+                items.append([n, qi, (si + qi) % len(specs) if not t else si, t])
+    out.append(Leg('masks_N3', fn_mask3, items, chunk=4, src_states=len(items), exhaustive=bool(t), supplementary=not t,
+                   bound='N=3: gates of every kind on every ordered 1- and 2-qubit subset (non-contiguous masks) applied to lists, polynomials and '
+                         'signed pure/mixed states, and the direct masked rotate_by / transform_by (%s of the gate catalogue)' % ('all' if t else 'a stride')))
     reps2 = stab.representatives(2, seed)
     items = [[1, i] for i in stab.representatives(1, seed)] + [[2, i] for i in (reps2 if t else reps2[::3])]
     out.append(Leg('torch', fn_torch, items, chunk=1, src_states=len(items),
